@@ -81,12 +81,16 @@ def unbracketed(c):
     return [render_drop(c, p) for p in out]
 
 
+PROBES = [('N', ('A', 'N', ('U', None))), ('NP/N', ('F', ('A', 'NP', ('U', None)), '/', ('A', 'N', ('U', None))))]
+
+
 def space(tier):
     en3 = K.universe(K.en_atoms(), 3, '/\\|')
     ja3 = K.universe(K.ja_atoms(), 3, '/\\|')
     en2 = K.universe(K.en_atoms(), 2, '/\\|')
     ja2 = K.universe(K.ja_atoms(), 2, '/\\|')
-    small = K.universe([K.P('S[dcl]'), K.P('NP'), K.P('S[X]'), K.P('NP[case=ga,mod=nm,fin=f]'), K.P('N'), K.P(',')], 4, '/\\|')
+    A, U, T3 = K.Atom, K.UnaryFeature, K.TernaryFeature       # built with the constructors: the parser is what is being judged
+    small = K.universe([A('S', U('dcl')), A('NP'), A('S', U('X')), A('NP', T3(('case', 'ga'), ('mod', 'nm'), ('fin', 'f'))), A('N'), A(',')], 4, '/\\|')
     odd = K.universe(K.odd_atoms() + [K.P('NP')], 2, '/\\|') + K.universe(K.odd_atoms()[:6], 3, '/\\')
     return en3, ja3, en2, ja2, small, odd
 
@@ -121,6 +125,19 @@ def shard_fn(sh):
                         st.violation('associativity_guessed', f'{bad!r} (two unbracketed slashes at one level) was read as {r}', value=bad, engine='c05_unbracketed')
                     except Exception:
                         pass
+                    # a rejection must leave nothing behind: the next well-formed texts read as they always do
+                    for probe, want in PROBES:
+                        try:
+                            got = K.key(K.P(probe))
+                        except Exception as e:
+                            got = repr(e)
+                        if got != want:
+                            st.violation('state_after_rejection', f'after the rejected text {bad!r} the well-formed text {probe!r} reads as {got}', value=bad, probe=probe, engine='c05_after_rejection')
+                            for _ in range(3):      # let a self-healing parser recover so that later cases are judged on their own
+                                try:
+                                    K.P(probe)
+                                except Exception:
+                                    pass
             st.observe(t)
     elif kind == 'deco':
         d = sh[4]
@@ -214,6 +231,23 @@ def replay(rec):
             return 1
         except Exception:
             return 0
+    if rec.get('engine') == 'c05_after_rejection':
+        try:
+            K.P(s)
+        except Exception:
+            pass
+        want = dict(PROBES)[rec['probe']]
+        try:
+            got = K.key(K.P(rec['probe']))
+        except Exception as e:
+            got = repr(e)
+        print('after the rejection', rec['probe'], 'reads as', got)
+        for _ in range(3):
+            try:
+                K.P(rec['probe'])
+            except Exception:
+                pass
+        return 1 if got != want else 0
     if rec.get('engine') == 'c05_deco':
         try:
             return 0 if str(K.P(s)) == rec['canonical'] else 1
